@@ -291,6 +291,9 @@ impl<'a> Lexer<'a> {
             }
             if self.buf[self.pos] == substr[matched] {
                 matched += 1;
+            } else if self.buf[self.pos] == substr[0] {
+                // the byte that ends a partial match may start the next one ("\n\nEI")
+                matched = 1;
             } else {
                 matched = 0;
             }
